@@ -45,7 +45,7 @@ revert-F3 w_io_bufwriter_order
 revert-F4 e_lazy_parse_from_frees e_owned_load1
 revert-F5 k_unicode_copying
 revert-F7 u_owned_from_lazy_types
-revert-F8 u_owned_new_types
+revert-F8 u_owned_view_of_raw_array u_owned_view_of_raw_object
 revert-F9 u_parse_number_int_len1_12
 revert-F10 m_get_object_checked_n6
 revert-F11 m_skip_one_dispatch_n7
